@@ -11,15 +11,20 @@ package ledger
 import (
 	"bytes"
 	"fmt"
+	"os"
+	"path/filepath"
 	"sort"
 	"strings"
 	"testing"
+	"time"
 
 	"pgregory.net/rapid"
 
 	"github.com/algorand/go-algorand/config"
 	"github.com/algorand/go-algorand/crypto/merklesignature"
 	"github.com/algorand/go-algorand/data/basics"
+	"github.com/algorand/go-algorand/data/transactions/verify"
+	"github.com/algorand/go-algorand/data/txntest"
 	"github.com/algorand/go-algorand/protocol"
 )
 
@@ -761,4 +766,266 @@ func TestVerif_C13_OnlineStake(t *testing.T) {
 	vk.Assume("domain restriction: a genesis allocation never carries IncentiveEligible = true (no generator sets it; the flag arises from a keyreg paying the fee); for the engine's genesis-eligible accounts the flag is not compared until a block touches them")
 	variants := c13RegisterProtos(t) // before any ledger exists
 	rapid.Check(t, func(rt *rapid.T) { c13RunCase(t, rt, vk, variants) })
+}
+
+// ---------------------------------------------------------------------------------------------------------------
+// LargeFlush: one tracker commit that covers more than 500 rounds.
+//
+// A running node cannot hold that many rounds unflushed by parking the flush timer: every block's delta contains at
+// least the rewards pool account (StartEvaluator always Puts it), so after 128 rounds pendingDeltasFlushThreshold
+// forces a commit whatever lastFlushTime says (measured: a parked node never gets beyond 128+MaxAcctLookback rounds).
+// Commits of up to 1000 rounds (initializeCachesRoundFlushInterval) happen in trackerRegistry.replay: a node whose
+// tracker DB is behind its block DB - the documented recovery of an archival node after its tracker database was
+// removed - replays the blocks from the tracker round and flushes once at the end (latest - MaxAcctLookback rounds
+// in ONE commit). That is the path used here: an extra on-disk archival ledger ("big") is fed the same blocks as the
+// engine's primary node (which flushes every few dozen rounds and is the differential reference, both compared with
+// the model), closed, its tracker.sqlite files removed, and reopened.
+
+type c13Big struct {
+	node   *engcNode // only the exported fields are used (Name, L, Cfg, OnDisk, Reloads)
+	prefix string
+	w      *engcWorld
+}
+
+func (b *c13Big) open() error {
+	l, err := OpenLedger(engcLogger(), b.prefix, false, b.w.Genesis, b.node.Cfg)
+	if err != nil {
+		return err
+	}
+	l.verifiedTxnCache = verify.GetMockedCache(true)
+	b.node.L = l
+	b.quiesce()
+	return nil
+}
+
+func (b *c13Big) quiesce() {
+	l := b.node.L
+	latest := l.Latest()
+	l.WaitForCommit(latest)
+	<-l.Wait(latest)
+	l.trackerMu.Lock()
+	l.trackerMu.Unlock() //nolint:staticcheck
+	l.trackers.waitAccountsWriting()
+}
+
+// commit: what blockQueue.syncer does after persisting a block, with the flush timer expired
+func (b *c13Big) commit() {
+	b.quiesce()
+	l := b.node.L
+	l.trackers.mu.Lock()
+	l.trackers.lastFlushTime = time.Time{}
+	l.trackers.mu.Unlock()
+	l.notifyCommit(l.Latest())
+	l.trackers.waitAccountsWriting()
+	b.quiesce()
+}
+
+func (b *c13Big) close() {
+	if b.node.L != nil {
+		b.node.L.Close()
+		b.node.L = nil
+	}
+}
+
+func c13LargeFlushCase(tb *testing.T, t *rapid.T, vk *vkCtx, protos []protocol.ConsensusVersion) {
+	cv := protos[rapid.IntRange(0, len(protos)-1).Draw(t, "proto")]
+	w := engcNewWorld(tb, t, engcOpts{Label: vk.Label, Proto: cv, Profile: "status"})
+	defer w.Close()
+	c := &c13Run{w: w, vk: vk, p: w.Proto, flips: map[basics.Address]int{}, genIE: map[basics.Address]bool{}}
+	c.bl = basics.Round(2 * c.p.SeedRefreshInterval * c.p.SeedLookback)
+	g := w.Model.At(0)
+	for _, a := range g.Addrs() {
+		if g.Acct(a).Data.Status == basics.Online {
+			c.genOnl = append(c.genOnl, a)
+			c.genIE[a] = g.Acct(a).Data.IncentiveEligible
+		}
+	}
+
+	dir, err := os.MkdirTemp("", "c13big-")
+	if err != nil {
+		t.Fatalf("ENGINE: MkdirTemp: %v", err)
+	}
+	defer os.RemoveAll(dir)
+	cfg := engcDrawCfg(t, "big")
+	cfg.Archival = true // the replay from genesis needs every block
+	cfg.DisableLedgerLRUCache = true
+	big := &c13Big{node: &engcNode{Name: "big", Cfg: cfg, OnDisk: true}, prefix: filepath.Join(dir, "big"), w: w}
+	if err := big.open(); err != nil {
+		t.Fatalf("ENGINE: OpenLedger(big): %v", err)
+	}
+	defer big.close()
+
+	total := basics.Round(rapid.IntRange(510, 560).Draw(t, "rounds"))
+	boundary := total - basics.Round(cfg.MaxAcctLookback) // last round of the single replay commit
+	w.OnBlock(func(info *engcBlockInfo) {
+		for addr := range info.Post.Changes.Accts {
+			if (info.Pre.Acct(addr).Data.Status == basics.Online) != (info.Post.Acct(addr).Data.Status == basics.Online) {
+				c.flips[addr]++
+			}
+		}
+		c.settle()
+		if err := big.node.L.AddBlock(info.Block, engcCert); err != nil {
+			t.Fatalf("ENGINE: big AddBlock %d: %v", info.Round, err)
+		}
+		if info.Round%32 == 0 {
+			big.quiesce()
+		}
+	})
+
+	// plan: one online-relevant change by a distinct account at each of boundary-1 .. boundary+3 (never touched again),
+	// a few more at drawn earlier rounds; everything else is empty blocks proposed by the fee sink (touches nobody)
+	var actors []basics.Address
+	for _, u := range w.Users {
+		if d := g.Acct(u).Data; d.Status != basics.NotParticipating && d.MicroAlgos.Raw >= 3_000_000 {
+			actors = append(actors, u)
+		}
+	}
+	plan := map[basics.Round][]basics.Address{}
+	ai := 0
+	for r := boundary - 1; r <= boundary+3 && r <= total && ai < len(actors); r++ {
+		if r == boundary+1 || rapid.IntRange(0, 3).Draw(t, "nearBoundary") != 0 {
+			plan[r] = append(plan[r], actors[ai])
+			ai++
+		}
+	}
+	for ; ai < len(actors); ai++ {
+		for k := rapid.IntRange(0, 2).Draw(t, "earlyChanges"); k > 0; k-- {
+			r := basics.Round(rapid.Uint64Range(1, uint64(boundary)-2).Draw(t, "earlyRound"))
+			plan[r] = append(plan[r], actors[ai])
+		}
+	}
+	commitEvery := basics.Round(rapid.IntRange(25, 70).Draw(t, "primaryCommitEvery"))
+	changedAt := map[basics.Round]int{} // round -> accounts whose online data changed
+	mkBlock := func() {
+		b := w.BeginBlock(t)
+		b.ProposerSet, b.Proposer, b.Eligible = true, w.Sink, false
+		for _, a := range plan[b.Round] {
+			d := b.Gen.s.Acct(a).Data
+			var tx *txntest.Txn
+			switch {
+			case d.Status == basics.Online && rapid.IntRange(0, 2).Draw(t, "renew") != 0:
+				tx = &txntest.Txn{Type: protocol.KeyRegistrationTx, Sender: a} // go offline
+			default: // go online / renew keys
+				tx = &txntest.Txn{Type: protocol.KeyRegistrationTx, Sender: a, VoteFirst: b.Round, VoteKeyDilution: 10000,
+					VoteLast: b.Round + basics.Round(rapid.SampledFrom([]uint64{5, 40, 1_000_000}).Draw(t, "voteLife"))}
+				engcFillBytes(t, tx.VotePK[:], "votePK")
+				engcFillBytes(t, tx.SelectionPK[:], "selPK")
+				engcFillBytes(t, tx.StateProofPK[:], "spPK")
+			}
+			_ = b.Submit([]string{"c13:keyreg"}, tx)
+		}
+		info := b.Finish(t)
+		for addr := range info.Post.Changes.Accts {
+			if c13WantOAD(info.Pre, addr) != c13WantOAD(info.Post, addr) {
+				changedAt[info.Round]++
+			}
+		}
+		if info.Round%commitEvery == 0 {
+			w.Node.OpCommit()
+		}
+	}
+	for w.Model.Latest() < total {
+		mkBlock()
+	}
+	big.quiesce()
+
+	// ---- remove big's tracker database and reopen: replay of rounds 1..total, one commit at the end
+	big.close()
+	files, _ := filepath.Glob(big.prefix + ".tracker.sqlite*")
+	if len(files) == 0 {
+		t.Fatalf("ENGINE: no tracker database files at %s", big.prefix)
+	}
+	for _, f := range files {
+		os.Remove(f)
+	}
+	if err := big.open(); err != nil {
+		c.failf(t, "reopening the ledger after removing its tracker database failed: %v", err)
+	}
+	big.node.Reopens++
+	w.tracef("big: tracker db removed, reopened: db %d latest %d (boundary %d)", big.node.DBRound(), big.node.L.Latest(), boundary)
+	if big.node.L.Latest() != total {
+		c.failf(t, "big: latest %d after reopen, %d blocks were added", big.node.L.Latest(), total)
+	}
+	span := big.node.DBRound()
+	nontrivial := span > 500 && changedAt[span+1] > 0
+	vk.Labelf("largeflush:commit-span:%s", map[bool]string{true: ">500", false: "<=500"}[span > 500])
+	if span == boundary {
+		vk.Label("largeflush:single-commit-to-latest-minus-lookback")
+	}
+	for d := basics.Round(0); d <= 3; d++ {
+		if changedAt[span+d] > 0 {
+			vk.Labelf("largeflush:online-change-at-flush-boundary+%d", d)
+		}
+	}
+
+	nodes := []*engcNode{big.node, w.Node}
+	sweep := func(phase string) {
+		addrs := w.Addrs()
+		m := w.Model
+		for _, n := range nodes {
+			lo := c.lo(n.DBRound()).SubSaturate(1)
+			for r := lo; r <= m.Latest()+1; r++ {
+				// every account near the flush boundary and the latest rounds, a third of the rounds elsewhere
+				if r+12 < span && r > lo+2 && (uint64(r)+uint64(len(phase)))%3 != 0 {
+					continue
+				}
+				for _, a := range addrs {
+					c.lookup(t, n, r, a)
+				}
+				vrs := []basics.Round{r + c.bl}
+				if r <= m.Latest() {
+					vrs = c.voteRounds(m.At(r))
+				}
+				for i, vr := range vrs {
+					if i%2 == 0 || vr == r+c.bl {
+						c.circulation(t, n, r, vr)
+					}
+				}
+			}
+		}
+		vk.Label("largeflush:sweep-" + phase)
+	}
+	sweep("after-large-commit")
+	// the first unflushed round gets committed by the next commit, and then must survive a restart
+	for i, k := 0, int(cfg.MaxAcctLookback)+rapid.IntRange(2, 5).Draw(t, "moreBlocks"); i < k; i++ {
+		mkBlock()
+	}
+	big.commit()
+	w.tracef("big: commit db %d latest %d", big.node.DBRound(), big.node.L.Latest())
+	sweep("after-next-commit")
+	big.close()
+	if err := big.open(); err != nil {
+		c.failf(t, "reopening big failed: %v", err)
+	}
+	big.node.Reopens++
+	sweep("after-restart")
+
+	vk.Case(nontrivial, strings.Join(w.History, "|"))
+	vk.Labelf("proto:%s", cv)
+	vk.Add("lookups", int64(c.st.lookups))
+	vk.Add("circulation_queries", int64(c.st.circs))
+	vk.Add("queries_history_round", int64(c.st.history))
+	if vk.WantSample(nontrivial) {
+		h := w.History
+		if len(h) > 40 {
+			h = append(append([]string{}, h[:8]...), h[len(h)-30:]...)
+		}
+		vk.Sample(nontrivial, map[string]any{"proto": string(cv), "rounds": total, "commit_span": span, "changes_at_boundary_plus_1": changedAt[span+1], "history_excerpt": h,
+			"lookups": c.st.lookups, "circulation": c.st.circs})
+	}
+}
+
+func TestVerif_C13_LargeFlush(t *testing.T) {
+	vk := vkBegin(t, "C13")
+	vk.Rule("510-560 rounds of blocks proposed by the fee sink, empty except for keyreg online/offline/renewal transactions of distinct accounts placed at the rounds around latest-MaxAcctLookback " +
+		"(always one at the first round after it) and at drawn earlier rounds, under ConsensusFuture or one of the small-window variants; the engine's primary node commits every 25-70 rounds; an extra on-disk archival " +
+		"ledger gets the same blocks, then its tracker database is removed and it is reopened, so that trackerRegistry.replay flushes rounds 1..latest-MaxAcctLookback in ONE commit (> 500 rounds); " +
+		"LookupAgreement for every address and OnlineCirculation at the served rounds on both ledgers against the reference fold, right after the large commit, after the next commit, and after a restart. " +
+		"Non-trivial: the commit covered more than 500 rounds and an account's agreement-visible data changed in the first round after it. Distinct: by the block trace.")
+	vk.Assume("domain restriction: a genesis allocation never carries IncentiveEligible = true (see notes/C13.md)")
+	protos := []protocol.ConsensusVersion{protocol.ConsensusFuture}
+	for _, v := range c13RegisterProtos(t) {
+		protos = append(protos, v.name)
+	}
+	rapid.Check(t, func(rt *rapid.T) { c13LargeFlushCase(t, rt, vk, protos) })
 }
